@@ -50,20 +50,20 @@ include tame ha hb
 
 theorem compare_spec : compare a b = if a.last < b.first then -1 else if a.first > b.last then 1 else 0 := by
   unfold compare
-  rw [lt_num (fun h => (tame.any_hi (h ▸ ha.2.2)).1 _ hb.2.1),
-      gt_num (by have := hb.1.lt128; rw [ALL1_eq]; omega) (fun h => tame.no_lo (h ▸ ha.2.1) _ hb.2.2)]
+  rw [aLt_num (fun h => (tame.any_hi (h ▸ ha.2.2)).1 _ hb.2.1),
+      aGt_num (by have := hb.1.lt128; rw [ALL1_eq]; omega) (fun h => tame.no_lo (h ▸ ha.2.1) _ hb.2.2)]
   simp
 
 theorem isSubset_spec : isSubset a b = decide (b.first ≤ a.first ∧ a.last ≤ b.last) := by
   unfold isSubset
-  rw [le_num (fun h => tame.any_lo (h ▸ hb.2.1) _ ha.2.1),
-      le_num (fun h => (tame.any_hi (h ▸ ha.2.2)).2 _ hb.2.2)]
+  rw [aLe_num (fun h => tame.any_lo (h ▸ hb.2.1) _ ha.2.1),
+      aLe_num (fun h => (tame.any_hi (h ▸ ha.2.2)).2 _ hb.2.2)]
   simp
 
 theorem makeCombined_spec : makeCombined a b = ⟨min a.first b.first, max a.last b.last, ALL1⟩ := by
   unfold makeCombined stdMin stdMax
-  rw [lt_num (fun h => tame.any_lo (h ▸ hb.2.1) _ ha.2.1),
-      lt_num (fun h => (tame.any_hi (h ▸ ha.2.2)).2 _ hb.2.2)]
+  rw [aLt_num (fun h => tame.any_lo (h ▸ hb.2.1) _ ha.2.1),
+      aLt_num (fun h => (tame.any_hi (h ▸ ha.2.2)).2 _ hb.2.2)]
   congr 1
   · simp only [decide_eq_true_eq]; split <;> omega
   · simp only [decide_eq_true_eq]; split <;> omega
